@@ -1,5 +1,5 @@
 import Model
-import Generated
+import Generated.Facts
 import Props.Facts04
 
 namespace Facts04
